@@ -3,3 +3,4 @@ import DrandProofs.C17
 import DrandProofs.C18
 import DrandProofs.C02
 import DrandProofs.C01
+import DrandProofs.C03
